@@ -319,6 +319,20 @@ func checkSectorRange(c SectorCase, rs RangeSpec, sector *[rhp2.SectorSize]byte,
 	if e-s <= 4096 && !rhp2.VerifySectorRangeProof(cloneH(want), lh[s:e], us, ue, lps, root) {
 		return fail("complete", "VerifySectorRangeProof over leaf hashes rejected the honest proof")
 	}
+	if single || e-s <= 4096 {
+		if err := twice("C16/sector-range", desc, [][]H{want, lh[s:e]}, func(l [][]H) bool {
+			ok := true
+			if single {
+				ok = ok && rhp4.VerifyLeafProof(l[0], leaf, us, root)
+			}
+			if e-s <= 4096 {
+				ok = ok && rhp2.VerifySectorRangeProof(l[0], l[1], us, ue, lps, root)
+			}
+			return ok
+		}); err != nil {
+			return err
+		}
+	}
 
 	// ---- soundness
 	rng := sm64(c.Seed ^ uint64(s)<<24 ^ uint64(e))
